@@ -41,6 +41,7 @@ EGO_RAW = f"{OBJ}.state.position"
 EGO_TF = f"transforms.transform(({OBJ}.frame_id,FrameID.BASE_LINK),{OBJ}.state.position)"
 BEV_RAW = f"{OBJ}.get_distance_bev()"
 BEV_TF = f"{OBJ}.get_distance_bev(transforms)"
+BEV_TF_KW = f"{OBJ}.get_distance_bev(transforms=transforms)"
 
 
 def AND3(terms: List[Optional[bool]]) -> Optional[bool]:
@@ -164,7 +165,7 @@ def rule_predicate(ctx: Ctx) -> None:
         else:
             branch = None
         art_pos = next((v for k, v in fs.items() if k.startswith("none:") and (k[5:] == EGO_RAW and branch == "raw" or k[5:] == EGO_TF)), None)
-        art_bev = next((v for k, v in fs.items() if k.startswith("none:") and k[5:] in (BEV_RAW, BEV_TF)), None)
+        art_bev = next((v for k, v in fs.items() if k.startswith("none:") and k[5:] in (BEV_RAW, BEV_TF, BEV_TF_KW)), None)
         pos_av = None if branch is None else (False if branch == "none" else (art_pos is not True))
         bev_av = None if branch is None else (False if branch == "none" else (art_bev is not True))
 
@@ -243,6 +244,8 @@ def rule_predicate(ctx: Ctx) -> None:
                           fi=fi, expected=str(wv), found=value_t[:200])
             elif name in ("maxd", "mind"):
                 wv = {"raw": BEV_RAW, "tf": BEV_TF}.get(branch or "")
+                if branch == "tf" and value_t == BEV_TF_KW:
+                    value_t = BEV_TF
                 ctx.check(wv is not None and value_t == wv, "R-FRAME", "_is_target_object", f"{name}:{branch}",
                           f"criterion {name}: the compared distance is `{value_t[:140]}`; expected `{wv}` (ego-relative BEV distance)", fi=fi, expected=str(wv), found=value_t[:200])
             elif name == "conf":
